@@ -322,7 +322,7 @@ pub fn c14(ctx: &CheckCtx) -> CheckResult {
     let mut res = CheckResult::new("exploration");
     let mode = Mode {
         iso_check: true,
-        iso_max_b: if ctx.tier.is_thorough() { 0 } else { 6 },
+        iso_max_b: if ctx.tier.is_thorough() { 200 } else { 24 },
         max_execs: if ctx.tier.is_thorough() { 3000 } else { 400 },
         ..Mode::default()
     };
